@@ -56,8 +56,9 @@ func WorkDir() string {
 		}
 		sweepStale(base)
 		c := make(chan os.Signal, 2)
-		// SIGPIPE: a reader of our output that went away (`| head`) must not leave the scratch root behind
-		signal.Notify(c, syscall.SIGINT, syscall.SIGTERM, syscall.SIGHUP, syscall.SIGPIPE)
+		// (not SIGPIPE: with a handler installed it is also delivered for writes to sockets the
+		// server has closed; a root left behind by `| head` is swept by the next run)
+		signal.Notify(c, syscall.SIGINT, syscall.SIGTERM, syscall.SIGHUP)
 		go func() {
 			<-c
 			Cleanup()
